@@ -1074,6 +1074,42 @@ pub fn complementary_derivatives_family(pool: &Pool) -> Vec<T> {
     v
 }
 
+/// Operand lists of EVERY length 0..12 for the n-ary constructors (union, intersection, concatenation, difference), with
+/// operands that cannot be merged or absorbed; and classes that are NOT intervals ({a,c} without b, everything but b)
+/// under loops and next to the missing letter.
+pub fn every_length_and_holes_family(pool: &Pool) -> Vec<T> {
+    let mut v = vec![];
+    for n in 0..=12u32 {
+        let words: Vec<T> = (0..n).map(|i| T::Str(vec![pool.a + (i % 3), pool.a + ((i / 3) % 3), pool.a + (i % 2)])).collect();
+        let nots: Vec<T> = (0..n).map(|i| T::Not(Box::new(T::Str(vec![pool.a + (i % 3), pool.a + ((i / 3) % 3)])))).collect();
+        let atoms: Vec<T> = (0..n).map(|i| if i % 2 == 0 { T::Chr(pool.a + (i % 3)) } else { T::Opt(Box::new(T::Chr(pool.a + (i % 3)))) }).collect();
+        v.push(T::AltL(words.clone()));
+        v.push(T::AndL(nots.clone()));
+        v.push(T::CatL(atoms));
+        if n >= 1 {
+            v.push(T::Cat2(Box::new(T::AltL(words.clone())), Box::new(T::Chr(pool.b))));
+            v.push(T::And2(Box::new(T::AndL(nots)), Box::new(T::Loop(Box::new(T::AllChar), 2, Some(3)))));
+        }
+    }
+    let (a, bb, c) = (T::Chr(pool.a), T::Chr(pool.b), T::Chr(pool.c));
+    let holes: Vec<T> = vec![
+        T::Alt2(b(&a), b(&c)),
+        T::Alt2(Box::new(T::Rng(0, pool.a)), Box::new(T::Rng(pool.c, MAX_CHAR))),
+        T::And2(b(&T::AllChar), Box::new(T::Not(b(&bb)))),
+        T::AltL(vec![a.clone(), c.clone(), T::Chr(pool.c + 2)]),
+    ];
+    for h in &holes {
+        v.push(T::Star(b(h)));
+        v.push(T::Cat2(Box::new(T::Plus(b(h))), b(&bb)));
+        v.push(T::Cat2(b(&bb), Box::new(T::Star(b(h)))));
+        v.push(T::CatL(vec![h.clone(), bb.clone(), h.clone()]));
+        v.push(T::Loop(b(h), 2, Some(3)));
+        v.push(T::And2(Box::new(T::Star(b(h))), Box::new(T::Cat2(b(&T::All), b(&c)))));
+        v.push(T::Not(Box::new(T::Cat2(Box::new(T::Star(b(h))), b(&bb)))));
+    }
+    v
+}
+
 /// Ranges whose end points are landmark code points (ends of narrower character types, the surrogate block, U+FFFD,
 /// planes): alone, complemented, followed by a letter, and two of them side by side.
 pub fn landmark_range_family() -> Vec<T> {
